@@ -98,15 +98,22 @@ def k_name(k) -> str:
     ki = _index_of(k)
     _G.key = ki
     _log("name", ki)
+    return _default_cache().name_fn(k)
+
+
+def _early_stop(ki: int) -> None:
+    """Stage 'taken' and keys that must not progress: stopped at the first point of the per-key work that changes
+    nothing on disk (begin of the load / of the computation) -- name_fn itself may be called ahead of time by a
+    design that looks all keys up first."""
     st = _stage(ki)
     if (st and st["at"] == "taken") or ki in _G.block:
         _stop(ki)
-    return _default_cache().name_fn(k)
 
 
 def k_load(file):
     ki = _G.key
     _log("load_begin", ki)
+    _early_stop(ki)
     st = _stage(ki)
     if st and st["at"] == "hit":
         _stop(ki)
@@ -135,6 +142,8 @@ def k_save(file, data) -> None:
 
 
 def _before_compute(ki: int) -> None:
+    _G.key = ki
+    _early_stop(ki)
     st = _stage(ki)
     if st and st["at"] == "miss":
         _stop(ki)
@@ -254,7 +263,12 @@ def _mk_mover(real):
             _log("replace", ki)
             st = _stage(ki)
             if st and st["at"] == "closed":
-                _stop(ki)
+                _stop(ki)                       # immediately before the rename
+            r = real(src, dst, *a, **kw)
+            if st and st["at"] == "saved" and st.get("point") == "replace":
+                _log("cut", ki, off="after-replace")
+                _stop(ki)                       # immediately after it returned; nothing is flushed on our side
+            return r
         return real(src, dst, *a, **kw)
 
     return mover
@@ -394,7 +408,13 @@ def spawn(job: dict, timeout: float = 60.0) -> dict:
 # --------------------------------------------------------------------------------------------
 # harness side: plans from specification snapshots, observation of the directory, event logs
 # --------------------------------------------------------------------------------------------
-def plan_from_snapshot(snap: dict, nk: int, nchunks: int, offsets: dict) -> dict:
+def content(snap: dict, k: int) -> int:
+    """Chunks that reached the file key k is being written to (temporary file if there is one, else the final path)."""
+    t = snap["tmp"][k - 1]
+    return t if t >= 0 else snap["fin"][k - 1]
+
+
+def plan_from_snapshot(snap: dict, nk: int, nchunks: int, offsets: dict, points: dict | None = None) -> dict:
     """Stop points realising one Crash snapshot of CacheCrash.tla.
 
     offsets: {key index: byte offset} for keys whose spec stage is 'writing' with 0 < b < L.
@@ -409,12 +429,15 @@ def plan_from_snapshot(snap: dict, nk: int, nchunks: int, offsets: dict) -> dict
             continue
         st = {"at": w["at"]}
         if w["at"] == "writing":
-            if w["b"] == 0:
+            c = content(snap, k)
+            if c <= 0:
                 st["off"] = 0
-            elif w["b"] >= nchunks:
+            elif c >= nchunks:
                 st["off"] = "end"
             else:
                 st["off"] = int(offsets[k])
+        if w["at"] == "saved":
+            st["point"] = (points or {}).get(k, "replace")
         plan[k] = st
         staged.append(k)
     done = sorted(snap["done"])
